@@ -29,6 +29,7 @@
 (*            binary did), evaluate the formulas, write the failing cases  *)
 (*            to IOEnv.OUT                                                 *)
 (*   "laws"   check the laws that justify the formulas on all structures   *)
+(*   "render" the files of given structures                                *)
 (***************************************************************************)
 EXTENDS Integers, Sequences, FiniteSets, TLC, Json, IOUtils, SequencesExt
 
@@ -175,7 +176,8 @@ LawsHold(fo) == LET L == Lines(fo) n == NNodes(fo)
 (*           (#ifdef M <-> #if defined(M)) by a seeded bit                 *)
 (*   DEPTH : nesting bound;  MOD : of the largest stratum every MOD-th     *)
 (*           structure (offset SEED) is kept; MOD = 1 keeps all            *)
-(*   OPTS  : "full" | "light" option profile of the strata above NFULL     *)
+(*   NOPT  : structures with <= NOPT nodes get the full option profile,    *)
+(*           larger ones the light (seeded) profile                        *)
 (***************************************************************************)
 EnvInt(s) == atoi(s)
 Seed == EnvInt(IOEnv.SEED) % 1000
@@ -227,22 +229,41 @@ GenCases ==
                    IN [j \in DOMAIN idx |-> Respell(s[idx[j]], Seed * 1000 + (idx[j] % 1000000))]
       polSeq == FoldLeft(LAMBDA acc, n : acc \o PolSeq(n), <<>>,
                          [k \in 1..(IF NPol > NFull THEN NPol - NFull ELSE 0) |-> NFull + k])
-      light == IOEnv.OPTS = "light"
-      CaseOf(fo, idx, lt) ==
+      NOpt == EnvInt(IOEnv.NOPT)
+      CaseOf(fo, idx) ==
         LET L == Lines(fo) n == NNodes(fo) c == Combos(L)
             os == IF n = 0 THEN {NoOpt, Opt({}, {}, 0, TRUE), Opt({}, {}, 1, FALSE)}
-                  ELSE IF lt THEN LightOpts(n, c, Seed + idx) ELSE FullOpts(n, c)
+                  ELSE IF n > NOpt THEN LightOpts(n, c, Seed + idx) ELSE FullOpts(n, c)
             oseq == SetToSeq(os)
         IN [id |-> idx, n |-> n, combos |-> c, forest |-> fo, lines |-> LinesOut(fo),
             opts |-> [k \in DOMAIN oseq |-> OptOut(oseq[k])]]
   IN [i \in 1..(Len(fullSeq) + Len(polSeq)) |->
-        IF i <= Len(fullSeq) THEN CaseOf(fullSeq[i], i, FALSE)
-        ELSE CaseOf(polSeq[i - Len(fullSeq)], i, light)]
+        IF i <= Len(fullSeq) THEN CaseOf(fullSeq[i], i) ELSE CaseOf(polSeq[i - Len(fullSeq)], i)]
 
 ASSUME Step = "gen" =>
   LET cs == GenCases
   IN /\ ndJsonSerialize(IOEnv.OUT, cs)
      /\ PrintT(<<"GEN", Len(cs), "OPTCASES", FoldLeft(LAMBDA a, x : a + Len(x.opts), 0, cs)>>)
+
+(***************************************************************************)
+(* Step "render": the file of given structures (used when a failing case   *)
+(* is reduced to a smaller one and for replays).                           *)
+(***************************************************************************)
+RECURSIVE MacroSeq(_)
+MacroSeq(fo) == IF fo = <<>> THEN <<>>
+                ELSE <<Head(fo).m>> \o MacroSeq(Head(fo).t) \o MacroSeq(Head(fo).e) \o MacroSeq(Tail(fo))
+RECURSIVE KindsOk(_)
+KindsOk(fo) == \A i \in DOMAIN fo : /\ fo[i].k \in AllKinds /\ KindsOk(fo[i].t) /\ KindsOk(fo[i].e)
+                                     /\ (~fo[i].he => fo[i].e = <<>>)
+\* macros pairwise distinct, numbered in preorder
+WellFormed(fo) == KindsOk(fo) /\ MacroSeq(fo) = [i \in 1..NNodes(fo) |-> i]
+
+ASSUME Step = "render" =>
+  LET cs == ndJsonDeserialize(IOEnv.CASES)
+  IN /\ \A i \in DOMAIN cs : WellFormed(cs[i].forest)
+     /\ ndJsonSerialize(IOEnv.OUT, [i \in DOMAIN cs |->
+            [id |-> cs[i].id, n |-> NNodes(cs[i].forest), combos |-> Combos(Lines(cs[i].forest)),
+             forest |-> cs[i].forest, lines |-> LinesOut(cs[i].forest), opts |-> cs[i].opts]])
 
 (***************************************************************************)
 (* Laws (step "laws"): all structures with <= NFULL nodes in all spellings *)
